@@ -273,10 +273,47 @@ func runC35(c *Ctx) {
 			}
 			n++
 			l, _ := tg.LocOf(as)
-			pos := factMatches(tg.FactsAt(l), func(ft Fact) bool { return ft.Val && nosp(exprStr(ft.Cond)) == nosp(exprStr(as.Rhs[0]))+">0" })
+			pos := factMatches(tg.FactsAt(l), func(ft Fact) bool {
+				return ft.Val && (nosp(exprStr(ft.Cond)) == nosp(exprStr(as.Rhs[0]))+">0" || nosp(exprStr(ft.Cond)) == nosp(exprStr(as.Rhs[0]))+">=0")
+			})
 			c.Check(pos, "totals-exclude-errors", t.Key+": "+nodeStr(as), as.Pos(), m, "only positive lags are added", "a lag is added to the topic total without `> 0` (the -1 error marker would be subtracted)")
+			// Necessary condition of "totals equal the sum of the non-negative
+			// lags": nothing but the sign of the lag itself decides whether a
+			// partition's lag enters the total (seed C35-G: an extra conjunct on
+			// Commit.At dropped the valid lag of never-committed partitions).
+			var extra []string
+			for _, ft := range tg.FactsAt(l) {
+				cs := nosp(exprStr(ft.Cond))
+				added := nosp(exprStr(as.Rhs[0]))
+				if ft.Val && (cs == added+">0" || cs == added+">=0") {
+					continue
+				}
+				extra = append(extra, fmt.Sprintf("%s=%v", cs, ft.Val))
+			}
+			c.Check(len(extra) == 0, "totals-sum-every-valid-lag", t.Key+": "+nodeStr(as), as.Pos(), m, "the sign of the lag is the only condition on adding it",
+				"a partition's lag enters the topic total only under the additional condition(s) "+strings.Join(extra, ", ")+": a valid non-negative lag (e.g. of a partition with no commit) can be left out of TotalByTopic and Total")
 			return true
 		})
+		nEsc := 0
+		ast.Inspect(t.Decl.Body, func(x ast.Node) bool {
+			switch b := x.(type) {
+			case *ast.BranchStmt:
+				nEsc++
+				c.Fail("totals-sum-every-valid-lag", t.Key+"#"+b.Tok.String(), b.Pos(), m, "`"+b.Tok.String()+"` inside the summing loops skips partitions or topics of the lag map")
+			case *ast.ReturnStmt:
+				if b != t.Decl.Body.List[len(t.Decl.Body.List)-1] {
+					nEsc++
+					c.Fail("totals-sum-every-valid-lag", t.Key+"#early-return", b.Pos(), m, "TotalByTopic returns before every topic and partition was summed")
+				}
+			case *ast.RangeStmt:
+				xs := nosp(exprStr(b.X))
+				c.Check(xs == "l" || xs == "ps", "totals-sum-every-valid-lag", t.Key+"#range "+xs, b.Pos(), m, "ranges over the whole map", "the summing loop ranges over `"+xs+"`, not over the whole lag map / the topic's whole partition map")
+			}
+			return true
+		})
+		if nEsc == 0 {
+			c.OK("totals-sum-every-valid-lag", t.Key+"#no-early-exit", t.Pos(), m, "no break/continue/early return in the summing loops")
+		}
 		c.Check(n == 1, "totals-exclude-errors", t.Key+"#sum", t.Pos(), m, "", "per-topic sum not found")
 	}
 	if t := c.NeedFunc(m, "kadm.GroupLag.Total"); t != nil {
